@@ -2,6 +2,7 @@ import ObiVerif.Model.Clean
 import ObiVerif.Model.Race
 import ObiVerif.Lemmas.Race
 import ObiVerif.Lemmas.Clean
+import ObiVerif.Lemmas.CleanFuel
 import ObiVerif.Props.C09
 /-!
 # Property C13 — the obiclean graph is exact and identical for any worker count
@@ -281,6 +282,53 @@ theorem graph_any_two_schedules_agree (K : Kernels) (cfg : Config) (sample : Lis
     cleanSamplePar K cfg sample true s1 s2 = cleanSamplePar K cfg sample true t1 t2 := by
   rw [graph_schedule_independent K cfg sample s1 s2 h1 h2 hd1 hd2,
     graph_schedule_independent K cfg sample t1 t2 k1 k2 kd1 kd2]
+
+/-! ## `reweightSequences` terminates; the sort is stable -/
+
+/-- **`reweight_terminates`** — for every kernel pair, every distance / ratio setting and every sample (any counts,
+any sequences, any number of ties) the sequential reference never yields the `hang` outcome: the fuel `n + 2` of
+the fixed-point loop of `reweightSequences` is never exhausted, `cleanSample` always returns `.ok`. -/
+theorem reweight_terminates (K : Kernels) (cfg : Config) (sample : List Node) :
+    cleanSample K cfg sample ≠ .hang ∧ ∃ outs, cleanSample K cfg sample = .ok outs := by
+  have h := cleanSample_ne_hang K cfg sample
+  refine ⟨h, ?_⟩
+  cases hc : cleanSample K cfg sample with
+  | ok outs => exact ⟨outs, rfl⟩
+  | hang => exact absurd hc h
+
+/-- **`reweight_two_turns`** — why: on ANY graph whose edges all point to a later row (`Forward`: what
+`for j := i + 1` of `buildSamplePairs` guarantees — `edges1_forward`) and whose `SonCount` is the number of
+incoming edges, the loop stops after at most two turns, whatever fuel `≥ 2` it is given, and its result is the
+state after the leaf pass and ONE turn (the second turn finds nothing to fire). -/
+theorem reweight_two_turns (n : Nat) (counts : Array Nat) (edges : Array (List Edge)) (sons : Array Nat)
+    (F : Forward n edges sons) (hn : counts.size = n) :
+    reweight counts edges sons = some (innerPass counts edges sons
+      (leafPass counts edges sons { weight := counts, added := Array.replicate counts.size 0 })).1.weight :=
+  F.reweight_eq counts hn
+
+/-- the graph `cleanSample` hands to `reweight` satisfies the hypothesis of `reweight_two_turns` -/
+theorem reweight_graph_forward (K : Kernels) (sample : List Node) :
+    Forward (sortByCount sample).toArray.size (edges1 K (sortByCount sample).toArray).toArray
+      (sonCount (sortByCount sample).toArray.size (edges1 K (sortByCount sample).toArray)).toArray :=
+  edges1_forward K _
+
+/-- the `hang` outcome of the model is not dead code: with a backward edge and a lost increment (`SonCount 0 = 1`
+where two edges point to row 0) rows 0 and 1 fire each other for ever and the fuel runs out (test on one value) -/
+theorem reweight_hang_reachable :
+    reweight #[1, 1, 1] #[[⟨1, 1, 0, 97, 99⟩], [⟨0, 1, 0, 97, 99⟩], [⟨0, 1, 0, 97, 99⟩]] #[1, 1, 0] = none := by decide
+
+/-- **`sort_stable`** — `sortSamples` is stable: for every count `c`, the sequences of count `c` appear in the sorted
+sample in exactly their input order (together with `sort_spec`: the sorted sample is THE stable sort of the input). -/
+theorem sort_stable (sample : List Node) (c : Nat) :
+    (sortByCount sample).filter (fun y => y.count == c) = sample.filter (fun y => y.count == c) :=
+  sortByCount_stable sample c
+
+/-- non-vacuity of `sort_stable` (ties 5, 5, 5 and 2, 2 keep their input order) and of `reweight_two_turns` on a chain
+0 → 1 → 2 with a second leaf 3 → 2 -/
+example :
+    (sortByCount [⟨0, 5, [1]⟩, ⟨1, 2, [2]⟩, ⟨2, 5, [3]⟩, ⟨3, 2, [4]⟩, ⟨4, 5, [5]⟩, ⟨5, 1, [6]⟩]).map (·.orig) = [5, 1, 3, 0, 2, 4] ∧
+    reweight #[1, 2, 4, 1] #[[⟨1, 1, 0, 97, 99⟩], [⟨2, 1, 0, 97, 99⟩], [], [⟨2, 1, 0, 97, 99⟩]] #[0, 1, 2, 0]
+      = some #[1, 3, 8, 1] := by decide
 
 /-! ## Non-vacuity, and the race on the graph itself (tests on one concrete sample)
 
